@@ -9,6 +9,7 @@ package c12
 import (
 	"encoding/json"
 	"fmt"
+	"github.com/pion/interceptor"
 	"sort"
 	"strings"
 	"time"
@@ -387,10 +388,10 @@ func unbindCheck(j job) (string, int64, int64) {
 			}
 			if withOne {
 				if cp.local {
-					s.I.UnbindLocalStream(s.Locals[1].Info)
+					s.I.UnbindLocalStream(&interceptor.StreamInfo{ID: s.Locals[1].Info.ID, SSRC: s.Locals[1].Info.SSRC}) // identified by its SSRC
 				}
 				if cp.remote {
-					s.I.UnbindRemoteStream(s.Remotes[1].Info)
+					s.I.UnbindRemoteStream(&interceptor.StreamInfo{ID: s.Remotes[1].Info.ID, SSRC: s.Remotes[1].Info.SSRC})
 				}
 			}
 			for it := 300; it < 2300; it++ {
